@@ -404,7 +404,7 @@ def _int_from(e, c, a):
         cv = a[0].conc()
         if cv is not None:
             return Float(float(cv))
-        return Float(z3.fpSignedToFP(z3.RNE(), a[0].t, z3.Float64()) if a[0].sg else z3.fpUnsignedToFP(z3.RNE(), a[0].t, z3.Float64()))
+        return Float(z3.fpSignedToFP(z3.RNE(), a[0].t, z3.Float64()) if a[0].sg else z3.fpUnsignedToFP(z3.RNE(), a[0].t, z3.Float64()), src=a[0])
     bits, sg = int_ty(ty)
     v = a[0]
     if is_bool(v):
